@@ -232,7 +232,11 @@ class C05(Prop):
     # only leaf is fixed at 0 by its bounds — the equality duplicates the active bound
     import json
     f2b = json.loads('{"kind": "real", "model": {"tree": {"k": "node", "id": "root", "sb": [["89/32", "89/32"], ["75/16", "75/16"], ["61/16", "61/16"]], "ch": [{"k": "leaf", "id": "a1", "dev": {"cls": "IDevice", "n": 3, "lb": ["1/2", "1/2", "1/2"], "hb": ["5/2", "5/2", "5/2"], "cbs": [], "prm": {"a": "0", "b": ["2", "3", "4"], "c": "0"}, "_py": {"bform": "scalar", "cform": null}}}, {"k": "node", "id": "s3", "sb": [["0", "0"], ["11/16", "39/16"], ["9/8", "9/8"]], "ch": [{"k": "leaf", "id": "h2", "dev": {"cls": "IDevice2", "n": 3, "lb": ["0", "1/4", "1/2"], "hb": ["0", "15/4", "7/4"], "cbs": [], "prm": {"p_l": "-7/4", "p_h": "-1"}, "_py": {"bform": "pair", "cform": null}}}], "sub": false}, {"k": "leaf", "id": "a4", "dev": {"cls": "CDevice2", "n": 3, "lb": ["7/4", "1/2", "3/4"], "hb": ["4", "1/2", "3"], "cbs": [["3", "15/2", 0, 3]], "prm": {"p_l": "-2", "p_h": "-3/4"}, "_py": {"bform": "table", "cform": null}}}], "sub": false}, "n": 3}, "p": ["5/8", "-1/2", "-2"], "s0": null, "s0shape": "flat", "prox": null}')
-    return [mk(f2, [['21/8'], ['-5/4'], ['-15/8'], ['13/8'], ['1']]), f2b,
+    # a storage leaf whose `reserve` is raised between two solves of the same tree (fixed sub-seed: the same case on every run)
+    import random as _r
+    hr = _r.Random(1000); hm, hedit = G.sdevice_history(hr, 'quick', 3)
+    hist = {'kind': 'history', 'model': hm, 'edit': hedit, 'p': G.gen_price(hr, G.model_rows(hm), hm['n']), 'first': 'solve'}
+    return [mk(f2, [['21/8'], ['-5/4'], ['-15/8'], ['13/8'], ['1']]), f2b, hist,
             mk(two_rows, '3/2'),        # every multi-row solve raised a low-level SciPy error (matrix-shaped Jacobian)
             mk(fixed, '0'),             # the fixed-flow shortcut returned a flat vector
             mk(fixed_bad, '0')]         # ... and ignored the constraints (aggregate bounds exclude the only in-bounds flow): must raise
